@@ -272,6 +272,9 @@ def run(F, rep, tier):
                               "list<T> and is coerced to null" % (describe(d) if False else inner[:80], line), "%s:%s" % (tof["file"], line))
 
     list_type_fold_rule(F, rep)
+    from props import c16_fold
+    c16_fold.run(F, rep, tier)
+    c16_fold.run_coerced(F, rep)
     quantifier_rule(F, rep, (("is_equivalent", eqv), ("is_conformant", cnf)))
     # ---- R16.4
     fl = hirflow.Flow(coe)
